@@ -56,6 +56,9 @@ type Scenario struct {
 		BrokerUs  int   `json:"broker_us"`
 		CloseAtUs int   `json:"close_at_us"`
 		Seed      int64 `json:"seed"`
+		// Stall: the broker accepts nothing until every producer has returned (or 20 s have passed): a flood
+		// against a stalled broker.  The run is then judged on counts (the item list would be too long).
+		Stall bool `json:"stall,omitempty"`
 	} `json:"free,omitempty"`
 }
 
@@ -348,7 +351,12 @@ func runFree(rec *vtrace.Recorder, sc *Scenario) {
 	var mu sync.Mutex
 	delivered := [][]item{}
 	keysOK := true
+	release := make(chan struct{})
+	if !sc.Free.Stall {
+		close(release)
+	}
 	w := event.VerifNewWriter("verif", sc.Cfg.ChanCap, func(msgs []kafka.Message) {
+		<-release
 		b := make([]item, 0, len(msgs))
 		for _, m := range msgs {
 			id, env, key, _ := decode(m)
@@ -383,6 +391,17 @@ func runFree(rec *vtrace.Recorder, sc *Scenario) {
 			}
 		}(p)
 	}
+	prodret := true
+	if sc.Free.Stall {
+		pd := make(chan struct{})
+		go func() { wg.Wait(); close(pd) }()
+		select {
+		case <-pd:
+		case <-time.After(20 * time.Second):
+			prodret = false
+		}
+		close(release)
+	}
 	wg.Wait()
 	if sc.Free.CloseAtUs > 0 {
 		time.Sleep(time.Duration(sc.Free.CloseAtUs) * time.Microsecond)
@@ -392,10 +411,14 @@ func runFree(rec *vtrace.Recorder, sc *Scenario) {
 		close(r.closeRet)
 	}()
 	returned := false
+	closeWait := 3 * time.Second
+	if sc.Free.Stall {
+		closeWait = 30 * time.Second
+	}
 	select {
 	case <-r.closeRet:
 		returned = true
-	case <-time.After(3 * time.Second):
+	case <-time.After(closeWait):
 	}
 	mu.Lock()
 	flat := []item{}
@@ -411,6 +434,27 @@ func runFree(rec *vtrace.Recorder, sc *Scenario) {
 	acc := map[string]int{}
 	for _, p := range sc.Cfg.Producers {
 		acc[p] = sc.Free.NEvents
+	}
+	if sc.Free.Stall {
+		// judged on counts: per producer the number delivered, whether each producer's items came in order, once
+		ndel := map[string]int{}
+		last := map[string]int{}
+		inorder := true
+		for _, it := range flat {
+			ndel[it.P]++
+			if it.N != last[it.P]+1 {
+				inorder = false
+			}
+			last[it.P] = it.N
+		}
+		for _, p := range sc.Cfg.Producers {
+			if _, ok := ndel[p]; !ok {
+				ndel[p] = 0
+			}
+		}
+		rec.Emit("FreeRunEnd", "scn", sc.ID, "closed", returned, "accepted", acc, "flat", []item{}, "maxbatch", maxb, "keysok", k,
+			"buflen", w.VerifBufferLength(), "prodret", prodret, "ndel", ndel, "inorder", inorder)
+		return
 	}
 	rec.Emit("FreeRunEnd", "scn", sc.ID, "closed", returned, "accepted", acc, "flat", flat, "maxbatch", maxb, "keysok", k,
 		"buflen", w.VerifBufferLength())
